@@ -414,6 +414,30 @@ class SRun:
                 sn = key[0]
                 sel0 = model0.session(sn).selected
                 results[key] = ("OK", tuple(c or uid2cid.get((sel0, u), f"uid{u}") for _, u, c in val[1]))
+        # epilogue: a (name, UIDVALIDITY) pair never identifies two incarnations.  Two mailboxes created by the concurrent
+        # commands: SELECT a (its UIDVALIDITY is revealed), DELETE a, RENAME b a, SELECT a again -- the second incarnation of
+        # the name must not carry the first one's UIDVALIDITY.
+        ep = self.scn.get("epilogue_vv")
+        if ep:
+            o = h.sess("O")
+            o.on_resp = None
+
+            def vv_of(name):
+                r, resps = o.do(f'EXAMINE "{name}"')
+                if r is None or r.typ != "OK":
+                    return None
+                for x in resps:
+                    if x.kind == "untagged" and x.typ == "OK" and x.code and str(x.code[0]).upper() == "UIDVALIDITY":
+                        return int(x.code[1])
+                return None
+
+            v1 = vv_of(ep["a"])
+            o.do("UNSELECT")
+            r1, _ = o.do(f'DELETE "{ep["a"]}"')
+            r2, _ = o.do(f'RENAME "{ep["b"]}" "{ep["a"]}"')
+            v2 = vv_of(ep["a"]) if r1 is not None and r1.typ == "OK" and r2 is not None and r2.typ == "OK" else None
+            if v1 is not None and v2 is not None and v1 == v2:
+                self.fail("C02.uidvalidity-names-two-incarnations", {"how": "concurrent-create;delete;rename"}, f"a UIDVALIDITY other than {v1}", v2)
         sig_obs = (results, final_lists)
         self.env_fired = [e for e, f in zip(env_events, env_fired) if f]
         return npoints, sig_obs, model0
